@@ -62,7 +62,7 @@ func init() {
 			"tier2: StateStore / MergedBlocksStore are kept when they are memory:// URLs or use a scheme dstore does not know (error expected), and replaced by a fresh memory:// URL otherwise (local paths and cloud buckets are not opened); the metering plugin is the null emitter",
 			"no tier2 behind tier1: every parallel job fails at once, so a tier1 request that needs back-processing ends with that error; no block is delivered, so no module code runs (binaries of well-formed requests are valid empty WebAssembly modules)",
 			"segment size (tier1) and block type are server configuration: segment size in {1,10,100,1000}, never 0",
-			"the client goes away (request context cancelled) 500 ms after the request started, as any client may: this cuts short the real code's retry back-offs on a missing store file (a tier2 request for a later segment of a higher stage on an empty store); a request that outlives the client for any other reason makes the case inconclusive",
+			"the client goes away (request context cancelled) 500 ms after the request started, as any client may: this cuts short the real code's retry back-offs on a missing store file (a tier2 request for a later segment of a higher stage on an empty store); requests that outlive the client are counted (requests_still_running_when_client_went_away)",
 			"block heights answered by the chain (recent final block, head block) are realistic (<= 123456): they are not request content",
 			"tier1 block source: clean end (io.EOF) only when at most 100000 blocks were left to stream, an error otherwise (a real source never ends cleanly that far before the stop block; OnStreamTerminated walks every store boundary up to the stop block)",
 			"after 2 hangs reproduced in one stage by one worker process, further time-outs in that stage are counted without being reproduced again",
@@ -187,6 +187,13 @@ func corpus() []item {
 		return &pbsubstreams.Module{Name: name, Kind: kindMap(), Inputs: inputs, Output: &pbsubstreams.Module_Output{Type: "proto:my.Out"}}
 	}
 	plainEnv := t1env{SegmentSize: 10, FinalBlock: 999, HeadBlock: 1000}
+	noFinalEnv := t1env{SegmentSize: 10, FinalErr: true, HeadBlock: 1000}
+	storeAndMap := func() *pbsubstreams.Modules {
+		return &pbsubstreams.Modules{Binaries: bin, Modules: []*pbsubstreams.Module{
+			{Name: "s", Kind: &pbsubstreams.Module_KindStore_{KindStore: &pbsubstreams.Module_KindStore{UpdatePolicy: pbsubstreams.Module_KindStore_UPDATE_POLICY_SET, ValueType: "string"}}, Inputs: []*pbsubstreams.Module_Input{srcInput(testBlockType)}},
+			mapMod("m", storeInput("s", pbsubstreams.Module_Input_Store_GET)),
+		}}
+	}
 	t2 := func(ms *pbsubstreams.Modules, out string, stage uint32) *pbssinternal.ProcessRangeRequest {
 		return &pbssinternal.ProcessRangeRequest{Modules: ms, OutputModule: out, Stage: stage, MeteringConfig: "null://", BlockType: testBlockType,
 			StateStore: "memory://state", MergedBlocksStore: "memory://blocks", SegmentSize: 10, SegmentNumber: 1}
@@ -219,6 +226,18 @@ func corpus() []item {
 				r := t2(ms, "s", 0)
 				r.SegmentSize, r.SegmentNumber = 1, math.MaxUint64-1
 				return r
+			}()},
+		{tier: 1, family: "corpus", muts: []string{"production mode, start block 2^50, stop 2^50+5, server without a known final block"}, env: noFinalEnv,
+			msg: &pbsubstreamsrpc.Request{OutputModule: "m", ProductionMode: true, StartBlockNum: 1 << 50, StopBlockNum: 1<<50 + 5, Modules: storeAndMap()}},
+		{tier: 1, family: "corpus", muts: []string{"production mode, stop block 2^64-2, segment size 100, a store starting at block 90, server without a known final block"}, env: t1env{SegmentSize: 100, FinalErr: true, HeadBlock: 1000},
+			msg: func() *pbsubstreamsrpc.Request {
+				// the stop block rounded up to the next segment boundary wraps to 84; store s2 starts at 90
+				ms := storeAndMap()
+				s2 := &pbsubstreams.Module{Name: "s2", InitialBlock: 90, Kind: &pbsubstreams.Module_KindStore_{KindStore: &pbsubstreams.Module_KindStore{UpdatePolicy: pbsubstreams.Module_KindStore_UPDATE_POLICY_SET, ValueType: "string"}}, Inputs: []*pbsubstreams.Module_Input{storeInput("s", pbsubstreams.Module_Input_Store_GET)}}
+				m := mapMod("m", storeInput("s2", pbsubstreams.Module_Input_Store_GET))
+				m.InitialBlock = 90
+				ms.Modules = []*pbsubstreams.Module{ms.Modules[0], s2, m}
+				return &pbsubstreamsrpc.Request{OutputModule: "m", ProductionMode: true, StartBlockNum: 95, StopBlockNum: math.MaxUint64 - 1, Modules: ms}
 			}()},
 		{tier: 2, family: "corpus", muts: []string{"well-formed single-map request, stage 0"}, msg: t2(proto.Clone(one).(*pbsubstreams.Modules), "m", 0)},
 		{tier: 1, family: "corpus", muts: []string{"well-formed single-map request"}, env: plainEnv,
@@ -569,9 +588,11 @@ func judge(c *fw.Case, it *item, o *result, violation violationFunc, mkWitness w
 			why = o.RejectedAt + ": " + fw.NormalizeMsg(o.Err)
 		}
 		c.Logf("request outlived the client (%d ms): %s", o.Ms, why)
-		if o.PanicStage == "" && !(strings.Contains(o.Err, "load full store") && strings.Contains(o.Err, "context canceled")) {
-			// only the retry back-off on a missing store file is expected to take that long
-			c.Inconclusive(fmt.Sprintf("tier%d request ran for more than %s for an unexpected reason: %s", tier, clientPatience, why))
+		if strings.Contains(o.Err, "load full store") {
+			c.Count("requests_cut_short_in_a_store_load_retry", 1)
+		} else {
+			// anything else that is still running after clientPatience (a loaded machine is enough): counted, and listed by reason
+			c.Distinct("other_outcomes_after_client_went_away", why)
 		}
 	}
 	for _, st := range o.Reached {
